@@ -338,6 +338,13 @@ func (r *rw) selectStmt(s *ast.SelectStmt) ast.Stmt {
 		})
 		idx++
 	}
+	if hasDefault == "false" {
+		// vrt.Select always returns a case index here; the default clause keeps the switch a
+		// terminating statement when the original select was one (all arms return)
+		cases = append(cases, &ast.CaseClause{List: nil, Body: []ast.Stmt{
+			&ast.ExprStmt{X: call(id("panic"), &ast.BasicLit{Kind: token.STRING, Value: strconv.Quote("vrt.Select: no case fired")})},
+		}})
+	}
 	sw := &ast.SwitchStmt{
 		Tag:  call(sel("vrt", "Select"), append([]ast.Expr{id(hasDefault)}, args...)...),
 		Body: &ast.BlockStmt{List: cases},
